@@ -107,6 +107,12 @@ def _replay(r):
     X0 = X.clone()
     B, L = len(x), len(x[0])
     raised = None
+    strs = [m for m in ([r["motif"]] if "motif" in r else r.get("motifs", [])) if m["kind"] == "str"]
+    if strs:     # same two-call history as the symbolic harness
+        try:
+            getattr(ersatz, "substitute" if fn == "multisubstitute" else fn)(C.real_onehot([[0] * L], A), _mk_motif(strs[0], A, alphabet), start=0, alphabet=alphabet[::-1])
+        except Exception:
+            pass
     try:
         if fn == "substitute":
             Y = ersatz.substitute(X, _mk_motif(r["motif"], A, alphabet), start=r["start"], alphabet=alphabet)
@@ -333,9 +339,21 @@ def worker(cfg):
             strict = s_and(end == L)
             spec = None
 
+        if cfg.get("kind") == "str" or "str" in cfg.get("kinds", ()):
+            # history of length 2: an earlier call with the same motif string but another alphabet / batch must not
+            # influence this one (hidden module-level state)
+            try:
+                Xp = C.onehot_from_chars(np.zeros((1, L), dtype=object), A)
+                prim = mo if fn in ("substitute", "insert") else [m_ for m_ in ms if isinstance(m_, str)][0]
+                getattr(ers, "substitute" if fn == "multisubstitute" else fn)(Xp, prim, start=0, alphabet=alphabet[::-1])
+            except Exception as e:
+                if isinstance(e, core.Inconclusive):
+                    raise
         try:
             Y = call()
-        except (ValueError, IndexError, RuntimeError) as e:
+        except Exception as e:
+            if isinstance(e, core.Inconclusive):
+                raise
             claim = s_or(s_not(inside), strict)
             m = ctx.prove(claim, "raised => span not inside")
             if m is not None:
@@ -374,9 +392,9 @@ def worker(cfg):
             out["samples"].append({"cfg": cfg, "path": "returned", "path_condition_size": len(ctx.solver.assertions())})
         return "returned"
 
-    core.explore(body, stats=stats, max_paths=cfg.get("max_paths", 5000))
+    core.explore(body, stats=stats, max_paths=cfg.get("max_paths", 5000), reset=ld.restore)
     out["stats"] = stats.as_dict()
-    if stats.returned == 0 and not cfg.get("expect_no_return"):
+    if stats.returned == 0 and not cfg.get("expect_no_return") and not out["violations"]:
         raise core.Inconclusive("no returning path (vacuous harness)")
     return out
 
@@ -401,7 +419,8 @@ def configs(tier):
         for n in ((1, 2) if tier == "quick" else (1, 2, 3)):
             if L >= 2:
                 cf.append(dict(fn="randomize", A=A, L=L, B=B, n=n))
-    ms_sets = [((1, 1), ("ohe", "ohe"), (1, 1)), ((2, 1), ("ohe", "str"), (1, 1)), ((1, 2, 1), ("ohe", "ohe", "ohe"), (1, 1, 1))]
+    ms_sets = [((1, 1), ("ohe", "ohe"), (1, 1)), ((2, 1), ("ohe", "str"), (1, 1)), ((1, 2, 1), ("ohe", "ohe", "ohe"), (1, 1, 1)),
+               ((1, 2, 1), ("str", "ohe", "ohe"), (1, 1, 1))]
     if tier == "thorough":
         ms_sets += [((2, 2), ("ohe", "ohe"), (2, 1)), ((1, 1, 1), ("str", "ohe", "str"), (1, 1, 1)), ((3, 2), ("ohe", "ohe"), (1, 1))]
     for A in (As if tier == "thorough" else (4,)):
@@ -433,7 +452,7 @@ def main(tier, seed):
     # reachability witness: some returning and some raising path must exist
     rep.witness_ok = rep.stats["returned"] > 0 and rep.stats["raised"] > 0
     # model validation: replay a few concrete cases on the real build through the same oracle
-    rep.validated += validate_model()
+    rep.run_validation(validate_model)
     return harness.finish(rep)
 
 
@@ -462,7 +481,9 @@ def _shim_run(c):
             elif fn == "multisubstitute":
                 Y = ers.multisubstitute(X, [mot(m) for m in c["motifs"]], c["spacing"], start=c["start"], alphabet=alphabet)
             res["out"] = ("ok", [[int(v) for v in row] for row in Y.a.reshape(-1, Y.shape[-1]).tolist()], list(Y.shape))
-        except (ValueError, IndexError, RuntimeError) as e:
+        except Exception as e:
+            if isinstance(e, core.Inconclusive):
+                raise
             res["out"] = ("raised", type(e).__name__)
         res["modified"] = not C.same_objects(X.a, snap)
     core.explore(body)
@@ -487,7 +508,7 @@ def _real_run(c):
         elif fn == "multisubstitute":
             Y = ersatz.multisubstitute(X, [_mk_motif(m, A, alphabet) for m in c["motifs"]], c["spacing"], start=c["start"], alphabet=alphabet)
         res["out"] = ("ok", Y.reshape(-1, Y.shape[-1]).to(torch.int64).tolist(), list(Y.shape))
-    except (ValueError, IndexError, RuntimeError) as e:
+    except Exception as e:
         res["out"] = ("raised", type(e).__name__)
     res["modified"] = not torch.equal(X, X0)
     return res
